@@ -2,6 +2,7 @@
 CONSTANTS
   D = 3
   Wide = TRUE
+  Cat = 1
 SPECIFICATION GenSpec
 INVARIANTS ErrsAgree NonNullLaw ListLaw ItemLaw NumLaw GoodBad AbsentLaw ExtraLaw
 CONSTRAINT GenConstraint
